@@ -15,6 +15,18 @@ def pick_mode(rng, allow_junk=True):
     return rng.choice(MODES)
 
 
+TAGS = ["travel", "Music", "flowers", "a1", "x", "basic:alice", "basic:bob", "rest:tag", "UPPER", "music", "-dash", "b2"]
+
+
+def pick_tags(rng):
+    k = rng.below(10)
+    if k == 0:
+        return ""
+    if k == 1:
+        return "\u2421"
+    return ",".join(rng.choice(TAGS) for _ in range(1 + rng.below(4)))
+
+
 def gen_case(rng, n_ops, faults=False, crashes=False):
     out = [f"reset {rng.choice([32, 32, 32, 3, 4])}"]
     users = ["U1", "U2", "U3", "U4"]
@@ -80,6 +92,8 @@ def gen_case(rng, n_ops, faults=False, crashes=False):
                 o += f" priv=pv{rng.below(5)}"
             if rng.chance(1, 3):
                 o += f" pub=pb{rng.below(5)}"
+            if rng.chance(1, 4):
+                o += " tags=" + pick_tags(rng)
             if su not in readers and rng.chance(1, 3):
                 o += " chan=1"
                 chans.add(f"T{ntop + 1}")
@@ -106,7 +120,7 @@ def gen_case(rng, n_ops, faults=False, crashes=False):
         elif k < 62:
             o = f"note {s} {ta if not p2p else t} {rng.choice(['read', 'read', 'recv', 'recv', 'kp', 'bogus'])} {rng.choice([0, 1, 2, 3, 5, 8, -1, contents, contents + 1])}"
         elif k < 72:
-            what = rng.choice(["desc", "sub", "data", "data", "del", "desc", "sub", "data", "data", "del", "bogus"])
+            what = rng.choice(["desc", "sub", "data", "data", "del", "desc", "sub", "data", "data", "del", "bogus", "tags"])
             o = f"get {s} {ta if not p2p else t} {what}"
             if what in ("data", "del") and rng.chance(1, 2):
                 o += f" since={rng.below(6)} before={rng.below(8)} limit={rng.choice([0, 1, 2, 100])}"
@@ -118,6 +132,8 @@ def gen_case(rng, n_ops, faults=False, crashes=False):
                 o += f" user={rng.choice([u for u in users if not (ischan and u in readers)])}"
             if rng.chance(5, 6):
                 o += f" mode={pick_mode(rng)}"
+        elif k < 86 and rng.chance(1, 3):
+            o = f"settags {s} {t} tags=" + pick_tags(rng)
         elif k < 86:
             o = f"setdesc {s} {ta if not p2p else t}"
             if rng.chance(1, 3):
